@@ -141,16 +141,39 @@ SURVIVED_FIRST = {
     "C18-14": "helper parts were well-formed segments; parts with misplaced or too many underscores added",
     "C19-14": "killed by the C14 check (a file with an old name and a fresh modification time must survive); listed under also_checks",
     "C20-14": "no write ever failed before the judged calls; file kinds now may begin with one write that fails for a transient reason (file-size limit lowered for one call)",
+    # round 8 (see ROUND8_first_attempt.jsonl; n=15 plain slips at untouched sites, n=16 values/combinations a generated suite may hold constant)
+    "C01-16": "killed by the C15 check (element lists with two-digit indices); C01 draws at most four references - listed under also_checks",
+    "C02-16": "killed by the C07 check (its end-to-end configuration has a root logger and nothing else); the C02 package holds a handle lg0, so every C02 configuration has that logger - listed under also_checks",
+    "C03-16": "killed by the C08 check (the same file:line at many widths in one process); listed under also_checks",
+    "C04-15": "killed by the C05 check (Refresh-built asynchronous logger with file appenders and a backlog at Destroy); listed under also_checks",
+    "C05-16": "the logger under test was never the configured root; a third of the Refresh-built cases now configure it as root (raw writes through the root handle)",
+    "C06-16": "buffer sizes of the single-stepped histories were 100..130; now also 200, 256, 399, 1000",
+    "C08-15": "killed by the C10 check (hooks are set and unset independently); listed under also_checks",
+    "C08-16": "every event object was formatted at one width; a quarter are now formatted through a layout of another width first (console at 20, file at 200)",
+    "C09-15": "killed by the C08 check (marshal errors with hostile text in the text layout); listed under also_checks",
+    "C10-16": "killed by the C08 check (hostile context strings in the text layout); listed under also_checks",
+    "C11-16": "killed by the C15 check (top-level properties in every key spelling); listed under also_checks",
+    "C12-16": "as C01-16: killed by the C15 check; listed under also_checks",
+    "C13-16": "file names were roll.log, r, a.b; names holding digits and time-layout tokens added (app1.log, node05.log, w2006-01-02.log, Jan_PM.MST)",
+    "C14-15": "the RollingFile logger with separate=true only ever got INFO events; every third call is WARN now, and the files written during the run must still be there",
+    "C14-16": "every real-rotation run used a fresh directory; an earlier appender on the same directory and name in the same process now leaves a file that is then aged and must go",
+    "C15-15": "logger names were lg1..lg3; now lg1, zz2, svc3 (both sides of root)",
+    "C15-16": "every configuration had at least one logger; one in ten has appenders only",
+    "C18-16": "helper sub types had at most two segments; three segments with and without an action added",
+    "C19-15": "killed by the C16 check (a RollingFile logger on a missing directory: Refresh must fail); listed under also_checks",
+    "C19-16": "the log directory was a real directory that came back; now also a symbolic link that comes back pointing at a new directory",
+    "C20-15": "killed by the C02 check (asynchronous root logger that was never started: the call hangs); listed under also_checks",
+    "C20-16": "killed by the C13 check (time-lines west of UTC with a maximum age of 1-3 h); listed under also_checks",
 }
 
 _first = None
 
 def first_attempt_survived(sid):
-    """Rounds 4 to 7 keep the raw first-attempt output; earlier rounds are listed in SURVIVED_FIRST only if they survived."""
+    """Rounds 4 to 8 keep the raw first-attempt output; earlier rounds are listed in SURVIVED_FIRST only if they survived."""
     global _first
     if _first is None:
         _first = {}
-        for f in ("ROUND4_first_attempt.jsonl", "ROUND5_first_attempt.jsonl", "ROUND6_first_attempt.jsonl", "ROUND7_first_attempt.jsonl"):
+        for f in ("ROUND4_first_attempt.jsonl", "ROUND5_first_attempt.jsonl", "ROUND6_first_attempt.jsonl", "ROUND7_first_attempt.jsonl", "ROUND8_first_attempt.jsonl"):
             fp = os.path.join(ROOT, "seeded", f)
             if os.path.exists(fp):
                 for line in open(fp):
